@@ -110,6 +110,7 @@ void MempoolHistory::DoInvalidate(int depth)
 
 bool MempoolHistory::Submit(const GenTx& g)
 {
+    if (!g.tx) return false; // (defensive: the generator always returns a transaction)
     submitted++;
     st.cls(std::string("gen-") + GenKindName(g.kind));
     st.mix(uint64_t(10 + unsigned(g.kind)));
